@@ -510,7 +510,12 @@ macro_rules! op_assign {
                 let shape = ixes.shape();
                 fxn_input.push(ixes);
                 match shape[..] {
-                  [1,1] => plan.borrow_mut().push(MatrixAssignScalar{}.compile(&fxn_input)?),
+                  // a scalar index is a one-element index vector: plain assignment here would drop the old value
+                  [1,1] => {
+                    let ix = fxn_input.pop().unwrap().as_usize()?;
+                    fxn_input.push(Value::MatrixIndex(Matrix::DVector(Ref::new(na::DVector::from_vec(vec![ix])))));
+                    plan.borrow_mut().push([<$op AssignRange>]{}.compile(&fxn_input)?)
+                  },
                   [1,n] => plan.borrow_mut().push([<$op AssignRange>]{}.compile(&fxn_input)?),
                   [n,1] => plan.borrow_mut().push([<$op AssignRange>]{}.compile(&fxn_input)?),
                   _ => todo!(),
@@ -523,7 +528,13 @@ macro_rules! op_assign {
                 fxn_input.push(ix);
                 fxn_input.push(Value::IndexAll);
                 match shape[..] {
-                  [1,1] => plan.borrow_mut().push(MatrixAssignScalarAll{}.compile(&fxn_input)?),
+                  [1,1] => {
+                    let all = fxn_input.pop().unwrap();
+                    let ix = fxn_input.pop().unwrap().as_usize()?;
+                    fxn_input.push(Value::MatrixIndex(Matrix::DVector(Ref::new(na::DVector::from_vec(vec![ix])))));
+                    fxn_input.push(all);
+                    plan.borrow_mut().push([<$op AssignRangeAll>]{}.compile(&fxn_input)?)
+                  },
                   [1,n] => plan.borrow_mut().push([<$op AssignRangeAll>]{}.compile(&fxn_input)?),
                   [n,1] => plan.borrow_mut().push([<$op AssignRangeAll>]{}.compile(&fxn_input)?),
                   _ => todo!(),
